@@ -96,6 +96,16 @@ func intervalOver(il *IPRequestLimiter, now time.Time) bool {
 //@   loop 1 invariant forall k in [0, rangeidx) :: !ipIn(il.cidrBlocks[k], parsedIP)
 //@   loop 1 invariant ok == (nr <= il.MaxNrRequests) && maxNr == il.MaxNrRequests
 
+// The middleware closure: the header reports the very numbers Inc returned to THIS request
+// (no second, unsynchronised read), the request is passed on only if Inc said ok and answered
+// 429 only if it did not, and Inc is the one place the counter is advanced.
+//@ func NewLimiterMiddleware$1$1
+//@   wiring
+//@   callsite Sprintf requires headerIsOwnCount: vararg0.(int) == count && vararg1.(int) == maxNr
+//@   callsite ServeHTTP requires passedOnlyIfOk: ok
+//@   callsite WriteHeader requires tooManyOnlyIfNotOk: arg1 == 429 ==> !ok
+//@   callsite Count requires noSecondRead: false
+
 // lemmaQuota: k consecutive requests of one address that is not white-listed, all
 // within the running interval, are numbered c0+1 .. c0+k in order, each reported
 // with the configured maximum, and exactly those numbered <= MaxNrRequests pass.
